@@ -441,7 +441,7 @@ def r4_recording_robust(ctx, sym):
         fd = symexec.new_fd(sym, fmod, calls={
             'str': _str, 'get_exception_name': lambda e, *a: 'ValueError', 'type': lambda o: 'type-of-student-exception',
             'Location': rec.stub('Location', fn=lambda *a, **k: Obj('location')),
-            'format_contexts': lambda *a, **k: 'context text', 'wrap_fields': lambda fmt_, fields: dict(fields),
+            'format_contexts': lambda *a, **k: 'context text', 'wrap_fields': lambda fmt_, fields, *a_, **k_: dict(fields),
             'super': lambda *a: sup}, extra={'EXCEPTION_FF_MAP': {}, 'MAIN_REPORT': report})
         _, raised = symexec.run(fd, rt_init, [exc, ['context'], tb, 3], {'report': report}, bound_self=me,
                                 what='runtime_error.__init__')
